@@ -197,6 +197,18 @@ func c19Unit(endpoint string, shard, nshards int) vh.Unit {
 				if perr2 != nil || resp == nil || len(resp.Peers) != 1 || resp.Peers[0].URI != node.URI {
 					u.Violate("uri/handed-out-address-differs", fmt.Sprintf("%s: stored %q, vipnode_peer returned %+v err=%v", desc, node.URI, resp, perr2), nil)
 				}
+				// ... and stays the stored address while the host keeps checking in over that connection
+				for k := 0; k < 2; k++ {
+					vsched.Advance(30 * time.Second)
+					if _, uerr := pw.UpdateCtx(ctx, host, nil, uint64(k+1)); uerr != nil {
+						u.Violate("uri/host-keep-alive-refused", fmt.Sprintf("%s: %v", desc, uerr), nil)
+						break
+					}
+					if n2, err := pw.Raw.GetNode(store.NodeID(host.NodeID)); err != nil || n2.URI != node.URI {
+						u.Violate("uri/keep-alive-changed-advertised-address", fmt.Sprintf("%s: stored %q, after keep-alive %d of the host: %v (err %v)", desc, node.URI, k+1, n2, err), nil)
+						break
+					}
+				}
 				if len(u.R.Samples) < 3 && hostGiven && strings.Contains(o.h, ":") {
 					u.Sample(desc + " -> " + node.URI)
 				}
